@@ -12,6 +12,7 @@ mod slots;
 mod lexutil;
 mod nf;
 mod optable;
+mod gen;
 mod pipe;
 mod util;
 
